@@ -242,7 +242,10 @@ class CollisionArray:
                             metadata.attrs["Basis Type"],
                             "unicode_escape",
                         )
-                        CollisionArray._checkBasis(btype)
+                        if btype not in ("Cardinal", "Chebyshev"):
+                            raise CollisionLoadError(
+                                f"CollisionArray error: unknown basis {btype} in {filename}."
+                            )
 
                         # Dataset names are hardcoded, eg. "top, top"
                         datasetName = particle1.name + ", " + particle2.name
@@ -262,14 +265,16 @@ class CollisionArray:
                             basisSizeFile = size
                             basisTypeFile = btype
                         else:
-                            assert (
-                                size == basisSizeFile
-                            ), """CollisionArray error: All the collision files must
+                            if size != basisSizeFile:
+                                raise CollisionLoadError(
+                                    """CollisionArray error: All the collision files must
                             have the same basis size."""
-                            assert (
-                                btype == basisTypeFile
-                            ), """CollisionArray error: All the collision files must
+                                )
+                            if btype != basisTypeFile:
+                                raise CollisionLoadError(
+                                    """CollisionArray error: All the collision files must
                             have the same basis type."""
+                                )
 
                         collisionFileArray[i, :, :, j, :, :] = collisionDataset
                         
